@@ -61,6 +61,7 @@ class Ctx:
         self.log = []              # ghost callback log etc.
         self.notes = []
         self.assumed_used = set()  # names of npc/pyc contracts reached
+        self.funcs_entered = set() # T7: real functions of /repo executed on this path
         self.stub_calls = []
         self.approx_used = False
         self.width_hint = {}
